@@ -7,10 +7,11 @@ cd "$(dirname "$0")"
 mkdir -p .build/bin evidence replays
 (cd tools/simgen && go build -o ../../.build/bin/simgen ./cmd/simgen && go build -o ../../.build/bin/shimgen ./cmd/shimgen)
 cp -f /repo/go.sum go.sum.repo 2>/dev/null || true
-./.build/bin/simgen -repo /repo -out .build/overlay -verif "$PWD"
-rm -f .build/overlay.stamp
+mkdir -p .build/main/bin
+./.build/bin/simgen -repo /repo -out .build/main/overlay -verif "$PWD"
+rm -f .build/main/overlay.stamp
 for d in props/c*/; do
   id=$(basename "$d")
-  go test -c -overlay .build/overlay.json -tags verif -o .build/bin/$id.test ./props/$id
+  go test -c -overlay .build/main/overlay.json -tags verif -o .build/main/bin/$id.test ./props/$id
 done
 echo setup done
